@@ -7,7 +7,7 @@ from gen import SeqGen
 ID = "C10"
 HEAP_SUMMARY = True      # end every program with the reference-level observation (BB.Model.Heap vs id() walk)
 LEAN_MODULE = "BB.Properties.C10"
-QUICK_N = 150
+QUICK_N = 250
 THOROUGH_N = 3000
 RULE = ("consistent sequences of 1-3 positions (20% subsequences, forge path only), 1-4 channels with int/str ids whose "
         "insertion order is permuted per element, blueprint (ramp/sine, both marker kinds, waituntil) and raw-array channels, "
